@@ -3,6 +3,7 @@ package c10
 import (
 	"context"
 	"fmt"
+	"hash/fnv"
 	"net/http"
 	"strings"
 	"sync"
@@ -203,7 +204,13 @@ func (e *Env) prepare(c Case, scope string, sc *Script, cch cache.Cache) (evalua
 		}, "cache_ttl", c.Cfg)
 
 		if c.Mech == "generic_session" {
-			conf["session_lifespan"] = leeway(map[string]any{"active": "active", "not_after": "not_after"})
+			sl := map[string]any{"active": "active", "not_after": "not_after"}
+			if h := fnv.New32a(); func() bool { h.Write([]byte(c.Exp + "|" + c.Cfg + "|" + c.Ovr)); return h.Sum32()%2 == 1 }() {
+				// the expiry as text in a format without zone designator
+				sl = map[string]any{"active": "active", "not_after": "not_after_text", "time_format": "2006-01-02 15:04:05"}
+			}
+
+			conf["session_lifespan"] = leeway(sl)
 		}
 
 		f, err := NewFactory(&config.MechanismPrototypes{Authenticators: []config.Mechanism{{ID: "m", Type: "generic", Config: conf}}})
